@@ -1609,6 +1609,83 @@ pub fn suite_avp_lengths(out: &mut Out, tier: &str, rng: &mut Rng) {
     }
 }
 
+/// two-way combinations: every ordered pair of AVP kinds (the 39 standard kinds and an opaque hidden AVP)
+/// adjacent in one control message -- valid/valid (encoded, decoded, chained, records concatenated) and
+/// truncated/valid (the error list and what follows a bad record of every kind)
+pub fn suite_kind_pairs(out: &mut Out, tier: &str, rng: &mut Rng) {
+    let nk = KINDS.len();
+    let pick = |rng: &mut Rng, k: usize| -> Value { if k < nk { gen_avp_kind(rng, k, 9) } else { gen_hidden(rng, 20) } };
+    let ctl = |body: &[u8], rng: &mut Rng| enc_control_raw(flag_word(true, true, true, false, false, 2), None, [rng.u16(), rng.u16(), rng.u16(), rng.u16()], body);
+    for k1 in 0..=nk {
+        for k2 in 0..=nk {
+            let (a, b) = (pick(rng, k1), pick(rng, k2));
+            let mt = gen_message_type(rng);
+            let m = json!({"k": "Control", "length": 0, "tunnel_id": rng.u16(), "session_id": rng.u16(), "ns": rng.u16(), "nr": rng.u16(),
+                           "avps": [mt, a, b]});
+            out.emit(json!({"op": "roundtrip", "kind": "msg", "v": m}));
+            let sel = (k1 * 41 + k2) % 4;
+            if tier == "thorough" || sel == 0 {
+                out.emit(json!({"op": "chain", "in": bytes_json(&enc_control(&m)), "opts": [true, true, true]}));
+            }
+            if tier == "thorough" || sel == 1 {
+                out.emit(json!({"op": "avps_concat", "recs": [bytes_json(&enc_avp(&a)), bytes_json(&enc_avp(&b))]}));
+            }
+            if tier == "thorough" || sel == 2 {
+                out.emit(json!({"op": "encode", "kind": "msg", "v": m, "prefix": bytes_json(&rng.rbytes(1, 9)), "wr": "mon"}));
+            }
+            // a bad record of kind k1 (truncated fixed part, or an undecodable tail) followed by a good one of kind k2
+            if k1 < nk {
+                let (t, _, prog) = &KINDS[k1];
+                let good = enc_payload(&a);
+                let mlen = min_len(prog);
+                let bad: Option<Vec<u8>> = if mlen > 0 {
+                    Some(good[..rng.below(mlen as u64) as usize].to_vec())
+                } else {
+                    None
+                };
+                if let Some(badp) = bad {
+                    let recs = vec![enc_avp(&mt), enc_record(1, 6 + badp.len(), 0, *t, &badp), enc_avp(&b), enc_avp(&pick(rng, (k1 + k2) % (nk + 1)))];
+                    let body: Vec<u8> = recs.iter().flatten().copied().collect();
+                    let w = ctl(&body, rng);
+                    out.emit(json!({"op": "ctl_records", "in": bytes_json(&w), "recs": recs.iter().map(|r| bytes_json(r)).collect::<Vec<_>>()}));
+                    out.emit(json!({"op": "decode", "in": bytes_json(&w), "opts": [true, true, true], "entry": "validate", "rdr": "slice"}));
+                }
+            }
+        }
+    }
+}
+
+/// every payload octet of a valid AVP of every kind set to each of a list of values (thorough: all 256):
+/// the per-type readers must depend on each octet exactly as the specification says
+pub fn suite_octet_sweep(out: &mut Out, tier: &str, rng: &mut Rng) {
+    let quick_vals: [u8; 16] = [0, 1, 2, 0x3f, 0x40, 0x7f, 0x80, 0xbf, 0xc0, 0xc2, 0xe0, 0xed, 0xf0, 0xf4, 0xf5, 0xff];
+    let all: Vec<u8> = (0..=255u8).collect();
+    let vals: &[u8] = if tier == "thorough" { &all } else { &quick_vals };
+    for (ki, (t, _, _)) in KINDS.iter().enumerate() {
+        for rep in 0..2 {
+            let a = gen_avp_kind(rng, ki, if rep == 0 { 3 } else { 7 });
+            let p = enc_payload(&a);
+            for i in 0..p.len().min(24) {
+                for &v in vals {
+                    if p[i] == v {
+                        continue;
+                    }
+                    let mut q = p.clone();
+                    q[i] = v;
+                    out.emit(json!({"op": "decode_payload", "t": t, "in": bytes_json(&q), "rdr": "slice"}));
+                    if (i + v as usize + rep) % 8 == 0 {
+                        // the same record inside a control message, through the whole chain
+                        let mut body = enc_avp(&gen_message_type(rng));
+                        body.extend(enc_record(1, 6 + q.len(), 0, *t, &q));
+                        let w = enc_control_raw(flag_word(true, true, true, false, false, 2), None, [1, 2, 3, 4], &body);
+                        out.emit(json!({"op": "chain", "in": bytes_json(&w), "opts": [true, true, true]}));
+                    }
+                }
+            }
+        }
+    }
+}
+
 /// octets inserted at structural boundaries of a valid message (after the flags, after the header, between
 /// AVPs, at the end), with and without the Length field adjusted
 fn padded_variants(rng: &mut Rng, base: &[u8]) -> Vec<Vec<u8>> {
